@@ -28,6 +28,20 @@ def import_a5():
     return a5
 
 
+def raised_inside_library(e):
+    """True when the innermost frame of the traceback text carried by a worker error lies inside the package under test (the library
+    raised on its own), False when the harness itself failed (that stays a machinery error, exit 3)"""
+    import re
+    files = re.findall(r'File "([^"]+)", line \d+', str(e))
+    root = os.path.join(os.path.realpath(REPO), 'a5') + os.sep
+    return bool(files) and os.path.realpath(files[-1]).startswith(root)
+
+
+def library_error_line(e):
+    lines = [l for l in str(e).strip().splitlines() if l.strip()]
+    return lines[-1].strip() if lines else repr(e)
+
+
 def seed():
     try:
         return int(os.environ.get('VERIF_SEED', '0'))
